@@ -727,9 +727,13 @@ def p_C16(ctx):
     res = vlib.validate("Trace_C16", tpath)
     ctx.events += res["events"]
     ctx.verdicts += res["verdicts"]
+    ctx.drifts += res["drifts"]
     ctx.unjudged += res["unjudged"]
     if not res["accepted"]:
         ctx.rejected = True
+    # conformance of the parser to the token-level grammar of spec/Grammar.tla (DRIFT only)
+    ctx.extra["grammar_predictions"] = len([n_ for n_ in res["notes"] if "predicted" in n_])
+    ctx.extra["grammar_disagreements"] = len(res["drifts"])
     # distinct corrupted files that reached another parser branch than their base file
     branch = {}
     basebranch = {}
